@@ -180,7 +180,9 @@ def _worker(args):
             r = h.on_path(ctx, out, pc)
             if r is not None:
                 recs.append(r)
-        ctx.explore(h.run, on_path, max_paths=h.max_paths, time_cap=h.time_cap)
+        left = _DEADLINE - time.time() if _DEADLINE else h.time_cap
+        if left <= 0: raise Unsupported('time cap reached during exploration')
+        ctx.explore(h.run, on_path, max_paths=h.max_paths, time_cap=left)
         return {'recs': recs, 'stats': ctx.stats, 'models': sorted(ctx.models_used), 'fns': ctx.fns_used, 'cuts': sorted(set(ctx.cuts))}
     except Unsupported as e:
         return {'unsupported': str(e), 'tb': traceback.format_exc()[-1500:]}
@@ -189,12 +191,13 @@ def _worker(args):
 
 
 _PROG = None
+_DEADLINE = None     # absolute end of the running lane's time budget (shared by all its workers)
 
 
 def explore_parallel(prog, factory, fargs=(), dev=True, nproc=None, split_target=None):
     """factory(ctx, *fargs) -> harness object with .run(), .on_path(ctx,out,pc)->record|None,
     .max_paths, .time_cap.  Returns merged dict(recs, stats, models, fns, cuts)."""
-    global _PROG
+    global _PROG, _DEADLINE
     _PROG = prog
     nproc = nproc or NPROC
     split_target = split_target or nproc * 6
@@ -225,6 +228,7 @@ def explore_parallel(prog, factory, fargs=(), dev=True, nproc=None, split_target
         recs.extend(one)
         frontier.extend(ctx.todo); ctx.todo = []
         done_prefix_paths += 1
+    _DEADLINE = t0 + h.time_cap
     if frontier:
         chunks = [[] for _ in range(min(len(frontier), nproc * 4))]
         for i, p in enumerate(sorted(frontier, key=len)):
